@@ -3,6 +3,7 @@ package main
 
 import (
 	"bufio"
+	"bytes"
 	"encoding/json"
 	"fmt"
 	"os"
@@ -145,7 +146,7 @@ func runGrammar(w *hx.Worker, gr *gfam.Grammar, maxLen int, pump int, only strin
 			}
 			w.Count("parsers", 1)
 			for _, in := range lexfam.Inputs(byteAlphabet, maxLen) {
-				for mode := 0; mode < 3; mode++ {
+				for mode := 0; mode < 4; mode++ {
 					if mode > 0 && len(in) != maxLen {
 						continue // the other entry points only on the longest inputs (C15 compares them in full)
 					}
@@ -307,7 +308,78 @@ type BraceItem struct {
 	Block []*BraceItem `| Open @@* Close`
 }
 
+// capture targets that convert themselves (participle.Capture / encoding.TextUnmarshaler with pointer
+// receivers), as plain fields, pointers and slice elements
+type scCap struct{ S string }
+
+func (c *scCap) Capture(values []string) error { c.S += strings.Join(values, ""); return nil }
+
+type scTxt struct{ S string }
+
+func (t *scTxt) UnmarshalText(b []byte) error {
+	if string(b) == "bad" {
+		return fmt.Errorf("scTxt refuses %q", b)
+	}
+	t.S += string(b)
+	return nil
+}
+
+type SCDoc struct {
+	A  scCap    `@Ident`
+	B  []scCap  `( "," @Ident )*`
+	C  []*scCap `( ";" @Ident )*`
+	T  *scTxt   `( "=" @Ident`
+	TS []scTxt  `  ( "," @Ident )*`
+	TP []*scTxt `  ( ";" @Ident )* )?`
+}
+
+// scCheck: besides the oracle of C06, a successful parse has handed every identifier of the input to
+// exactly one capture target, in order.
+func scCheck(p *participle.Parser[SCDoc], fn string, in []byte) verifOutcome {
+	o := verifCheck(p, fn, in, 0)
+	if o.Class != "" || o.Kind != "ok" {
+		return o
+	}
+	v, err := p.ParseBytes(fn, in)
+	if err != nil || v == nil {
+		return o
+	}
+	got := v.A.S
+	for _, x := range v.B {
+		got += "," + x.S
+	}
+	for _, x := range v.C {
+		if x != nil {
+			got += "," + x.S
+		}
+	}
+	if v.T != nil {
+		got += "," + v.T.S
+	}
+	for _, x := range v.TS {
+		got += "," + x.S
+	}
+	for _, x := range v.TP {
+		if x != nil {
+			got += "," + x.S
+		}
+	}
+	toks, _ := p.Lex(fn, bytes.NewReader(in))
+	var want []string
+	for _, t := range toks {
+		if t.Type == mlLexer.Symbols()["Ident"] {
+			want = append(want, t.Value)
+		}
+	}
+	if got != strings.Join(want, ",") {
+		o.Class = "captured-values-lost-or-altered"
+		o.Detail = fmt.Sprintf("identifiers in the input: %q, values in the AST: %q", strings.Join(want, ","), got)
+	}
+	return o
+}
+
 func runMultiline(w *hx.Worker, quick bool) {
+	psc := participle.MustBuild[SCDoc](participle.Lexer(mlLexer))
 	pd := participle.MustBuild[MLDoc](participle.Lexer(mlLexer), participle.UseLookahead(2))
 	pn := participle.MustBuild[MLNums](participle.Lexer(mlLexer))
 	alpha := [][]byte{[]byte("{"), []byte("}"), []byte("a"), []byte("1"), []byte(" "), []byte("\n"), []byte("\""), []byte("é"), []byte("\xff"), []byte(";"), []byte(","), []byte("="), []byte("/*"), []byte("*/"), []byte("9999")}
@@ -337,6 +409,7 @@ func runMultiline(w *hx.Worker, quick bool) {
 	}
 	pb := participle.MustBuild[BraceDoc](participle.Lexer(braceLexer))
 	drive("braces", func(in []byte, fn string) verifOutcome { return verifCheck(pb, fn, in, 0) }, []string{"a { b } } c", "{ a { b { c } } }", "}", "a { b"})
+	drive("self-converting", func(in []byte, fn string) verifOutcome { return scCheck(psc, fn, in) }, []string{"a , b , c ; d ; e = f , g , h ; i ; j", "a = b , bad", "a , b = c ; d", "x ; y = bad ; z"})
 	drive("doc", func(in []byte, fn string) verifOutcome { return verifCheck(pd, fn, in, 0) }, seedsD)
 	drive("nums", func(in []byte, fn string) verifOutcome { return verifCheck(pn, fn, in, 1) }, seedsN)
 }
